@@ -250,8 +250,8 @@ func genPort(rt *rapid.T, risky bool, label string) *PortM {
 // later = user chains this chain may jump to (keeps the chain graph acyclic).
 // risky admits the vocabulary of the analysed known findings (protocols the
 // device prints by name, positive --syn, marks >= 2^31, negated port ranges
-// starting at 0, negated vrrp/ipv6-icmp), so that most cases stay clear of
-// them.
+// starting at 0, negated vrrp/ipv6-icmp, state match loaded before the
+// protocol match), so that most cases stay clear of them.
 func genRule(rt *rapid.T, risky bool, table, chain string, builtin bool, later []string) *Rule {
 	r := &Rule{LogLevel: -1}
 	if pct(rt, 50, "hasSrc") {
@@ -318,6 +318,9 @@ func genRule(rt *rapid.T, risky bool, table, chain string, builtin bool, later [
 				r.State = append(r.State, s)
 			}
 		}
+	}
+	if risky && len(r.State) > 0 && (r.SPort != nil || r.DPort != nil || r.Syn != 0 || r.ICMP != nil) {
+		r.StateFirst = rapid.Bool().Draw(rt, "stateFirst")
 	}
 	// target
 	switch table {
